@@ -328,7 +328,7 @@ impl Check for Forwarder {
                 }
             }
             if let Some((got, exp)) = outcome {
-                st.hit(if got { "tx.ok" } else { "tx.refused" });
+                st.tx(kind, got);
                 if got != exp {
                     let check = match (kind, got) {
                         ("forward", true) => "charge.needs_user_auth_over_exact_call_and_bounds",
